@@ -44,21 +44,21 @@ func init() {
 // ---------------------------------------------------------------- document model
 
 type csvDoc struct {
-	names    []string // header cells as written (may contain duplicates / empty)
-	cells    [][]string
-	headers  bool // header row written in the document (false: passed through csv.Headers)
-	delim    byte
-	crlf     bool
-	finalNL  bool
-	quoting  int // 0 needed, 1 always, 2 random
-	blankAt  map[int]bool
+	names                          []string // header cells as written (may contain duplicates / empty)
+	cells                          [][]string
+	headers                        bool // header row written in the document (false: passed through csv.Headers)
+	delim                          byte
+	crlf                           bool
+	finalNL                        bool
+	quoting                        int // 0 needed, 1 always, 2 random
+	blankAt                        map[int]bool
 	emptyNull, ignoreEmpty, rename bool
-	alias    string
-	types    map[int]string // declared type per column position
-	enumVals map[int][]string
-	hint     int
-	bytes    []byte
-	quotedSpans [][2]int // byte ranges of quoted fields with special content
+	alias                          string
+	types                          map[int]string // declared type per column position
+	enumVals                       map[int][]string
+	hint                           int
+	bytes                          []byte
+	quotedSpans                    [][2]int // byte ranges of quoted fields with special content
 }
 
 func (d *csvDoc) field(rng *rand.Rand, s string, forceQuote bool, out *[]byte) {
